@@ -7,6 +7,7 @@ CONSTANTS
   MaxNodes = 6
   MaxDepth = 3
   MinDefectEdits = 5
+  MaxSecrets = 1
   HistLen = 0
   Pick <- PickOne
 INVARIANTS EmitCfg
